@@ -141,7 +141,12 @@ class FnTranslator:
                 return self.bind(vals[i], lambda t: build2(i + 1, names + [t]))
             return ("rbool", build2(0, []))
         if isinstance(e, ast.IfExp):
-            c = self.as_cond(self.E(e.test, env))
+            prev = getattr(self, "_in_cond", False)
+            self._in_cond = True          # the test of a conditional expression is a truth-value context
+            try:
+                c = self.as_cond(self.E(e.test, env))
+            finally:
+                self._in_cond = prev
             a = self.to_res(self.E(e.body, env)); b = self.to_res(self.E(e.orelse, env))
             if c[0] == "bool":
                 return ("res", f"(if {c[1]} then {a} else {b})")
@@ -376,6 +381,19 @@ def translate_scalars(repo):
                     consts[nm] = val
                     out.append(f"def C{nm} : PyVal := PyVal.int ({val})")
                     out.append(f"def I{nm} : Int := ({val})\n")
+        # module-level helper functions of one parameter (e.g. a range test factored out of the methods)
+        local_known = dict(known)
+        for n in mod.body:
+            if isinstance(n, ast.FunctionDef) and len(n.args.args) == 1 and not n.args.kwonlyargs and not n.decorator_list:
+                strip_doc(n)
+                q = f"{cls}.helper.{n.name}"
+                report["functions"][q] = norm_hash(n)
+                try:
+                    out.append(FnTranslator(q, n, consts, local_known).translate())
+                    local_known[n.name] = q
+                except Untranslatable as e:
+                    report["untranslatable"].append([q, str(e)])
+                    out.append(f"-- UNTRANSLATABLE {q}: {e}\n")
         for n in mod.body:
             if isinstance(n, ast.ClassDef) and n.name == cls:
                 for m in n.body:
@@ -384,7 +402,7 @@ def translate_scalars(repo):
                         q = f"{cls}.{m.name}"
                         report["functions"][q] = norm_hash(m)
                         try:
-                            out.append(FnTranslator(q, m, consts, known).translate())
+                            out.append(FnTranslator(q, m, consts, local_known).translate())
                         except Untranslatable as e:
                             report["untranslatable"].append([q, str(e)])
                             out.append(f"-- UNTRANSLATABLE {q}: {e}\n")
